@@ -24,6 +24,10 @@ use rs_matter::persist::{KvBlobStore, PERSISTENT_SUBSCRIPTIONS_START};
 use rs_matter::tlv::TLVElement;
 use rs_matter::utils::storage::pooled::{Buffers, PooledBuffers};
 
+/// system-level stream: the real reporter / responder tasks on the simulated network
+#[path = "c13_sys.rs"]
+mod sys;
+
 const POOL: usize = 6;
 type Pool = PooledBuffers<IMBuffer, POOL>;
 
@@ -620,9 +624,16 @@ fn gen_case<const N: usize>(id: u64, r: &mut Rng, thorough: bool, out: &mut Out)
 pub fn gen(a: &Args) -> String {
     let mut r = Rng::new(a.seed);
     let mut out = Out::default();
-    out.buf.push_str("#rule a case is one interleaving on a fresh real Subscriptions<N> table (N in 1..4) of attribute changes (hot paths, bursts overflowing the 16-entry table, wildcards), subscription adds whose priming context stays open, reporter report begins with their contexts kept open, keep/retry/drop endings, purges, removals by peer and by expiry, next_report_at queries, persisting the table to a retained store and restarting the device on it (fresh table, load_persist), under a monotone clock with steps around the negotiated intervals; non-trivial = a change was recorded while a subscription was outside the table, a report was begun and a purge ran; distinct = by operation list\n");
+    out.buf.push_str("#rule a case is one interleaving on a fresh real Subscriptions<N> table (N in 1..4) of attribute changes (hot paths, bursts overflowing the 16-entry table, wildcards), subscription adds whose priming context stays open, reporter report begins with their contexts kept open, keep/retry/drop endings, purges, removals by peer and by expiry, next_report_at queries, persisting the table to a retained store and restarting the device on it (fresh table, load_persist), under a monotone clock with steps around the negotiated intervals; non-trivial = a change was recorded while a subscription was outside the table, a report was begun and a purge ran; distinct = by operation list; ");
+    out.buf.push_str(sys::RULE);
+    out.buf.push('\n');
     let n_cases = if a.thorough { 40000 } else { 4000 };
+    // development aid: `--only sys` skips the table-level cases
+    let only_sys = a.extra.get("only").map(|v| v == "sys").unwrap_or(false);
     for id in 0..n_cases {
+        if only_sys {
+            break;
+        }
         let mut cr = r.fork();
         match cr.below(8) {
             0 => gen_case::<1>(id, &mut cr, a.thorough, &mut out),
@@ -631,6 +642,7 @@ pub fn gen(a: &Args) -> String {
             _ => gen_case::<4>(id, &mut cr, a.thorough, &mut out),
         }
     }
+    sys::gen(&mut out, &mut r, a.thorough, n_cases);
     out.finish()
 }
 
@@ -638,7 +650,11 @@ pub fn replay(a: &Args) -> String {
     let text = std::fs::read_to_string(a.input.as_ref().expect("--in")).expect("read input");
     let mut out = Out::default();
     for c in parse_cases(&text) {
-        replay_case(&mut out, &c);
+        if c.kind.starts_with("sys") {
+            sys::replay_case(&mut out, &c);
+        } else {
+            replay_case(&mut out, &c);
+        }
     }
     out.finish()
 }
